@@ -489,6 +489,14 @@ class Gen:
             return False
         a = self.pick(keys[:-1])
         b = self.pick(keys[1:])
+        if self.flags.get("call_bias"):
+            # prefer order edges that touch a call / function load (their order ports sit after a static port)
+            cl = [k for k in r.nodes if isinstance(k, int) and self.events[k].get("e") in ("call", "load_func")]
+            if cl and self.coin(2, 3):
+                if self.coin():
+                    b = self.pick(cl)
+                else:
+                    a = self.pick(cl)
         if a == b or a == "out" or b == "in":
             return False
         # Const / FuncDefn children have no order ports
